@@ -647,6 +647,16 @@ func (c *FnCtx) mapRead(st *State, m Term, mt *types.Map, k Term) (val Term, ok 
 	for _, a := range added {
 		st.assume(sImp(in, a))
 	}
+	// membership already decided on this path: no ite needed (keeps terms matchable)
+	notIn := sNot(in)
+	for _, a := range st.path {
+		if a == in {
+			return raw, Term{S: "true", Sort: sBool, T: types.Typ[types.Bool]}
+		}
+		if a == notIn {
+			return Term{S: c.e.d.zero(vs), Sort: vs, T: mt.Elem()}, Term{S: "false", Sort: sBool, T: types.Typ[types.Bool]}
+		}
+	}
 	v := Term{S: sIte(in, raw.S, c.e.d.zero(vs)), Sort: vs, T: mt.Elem()}
 	return v, Term{S: in, Sort: sBool, T: types.Typ[types.Bool]}
 }
